@@ -257,7 +257,11 @@ public:
     }
     if (const auto* P = dyn_cast<CXXBindTemporaryExpr>(X)) return expr(P->getSubExpr());
     if (const auto* P = dyn_cast<ConstantExpr>(X)) return expr(P->getSubExpr());
-    if (const auto* P = dyn_cast<SubstNonTypeTemplateParmExpr>(X)) return expr(P->getReplacement());
+    if (const auto* P = dyn_cast<SubstNonTypeTemplateParmExpr>(X)) {
+      json::Value v = expr(P->getReplacement());
+      if (json::Object* ob = v.getAsObject()) (*ob)["nttp"] = true;   // written by the compiler from a template argument
+      return v;
+    }
     if (const auto* P = dyn_cast<CXXDefaultArgExpr>(X)) return expr(P->getExpr());
     if (const auto* P = dyn_cast<CXXDefaultInitExpr>(X)) return expr(P->getExpr());
 
@@ -617,7 +621,11 @@ public:
       o["k"] = "if";
       if (I->getInit()) o["init"] = stmt(I->getInit());
       if (I->getConditionVariable()) o["condvar"] = varDecl(I->getConditionVariable());
-      if (I->isConstexpr()) o["constexpr"] = true;
+      if (I->isConstexpr()) {
+        o["constexpr"] = true;
+        bool B = false;
+        if (!I->getCond()->isValueDependent() && I->getCond()->EvaluateAsBooleanCondition(B, Ctx)) o["cond_value"] = B;
+      }
       o["c"] = expr(I->getCond());
       o["then"] = stmt(I->getThen());
       o["else"] = stmt(I->getElse());
